@@ -72,7 +72,10 @@ REQUIRED_LABELS = {
 }
 REQUIRED_LABELS["quick"] += ["sel:QGRU", "sel:QBidirectional:QGRU",
                              "src:LeakyReLU->QActivation",
-                             "lstm_no_unit_forget_bias", "rnn_no_recurrent_q"]
+                             "lstm_no_unit_forget_bias", "rnn_no_recurrent_q",
+                             "bn_selected_by_empty_name_entry",
+                             "bn_selected_by_empty_class_entry",
+                             "hidden_by_empty_name_entry"]
 REQUIRED_LABELS["thorough"] = REQUIRED_LABELS["quick"] + [
     "unsel:LSTM", "unsel:Bidirectional", "two_outputs"]
 
@@ -287,6 +290,11 @@ def oracle(ctx, case, origin="hyp"):
         labels.append("act:" + a[0])
       if REF.contested(ld, qd):
         labels.append("name_over_class")
+      if ld["cls"] == "BatchNormalization":
+        ent = qd[ld["name"]] if ld["name"] in qd else qd.get(
+            "QBatchNormalization")
+        if ent == {}:
+          labels.append("bn_selected_by_empty_%s_entry" % p["by"])
       if ld["cls"] == "LeakyReLU":
         labels.append("src:LeakyReLU->QActivation")
       pr = p.get("inner", p)
@@ -301,6 +309,8 @@ def oracle(ctx, case, origin="hyp"):
       labels.append("unsel:" + ld["cls"])
       if ld["name"] in qd and REF.contested(ld, qd):
         labels.append("hidden_by_name_entry")
+        if qd[ld["name"]] == {}:
+          labels.append("hidden_by_empty_name_entry")
   nontrivial = n_sel > 0 and n_unsel > 0
 
   # ---- snapshots for the non-mutation clauses
@@ -621,7 +631,9 @@ _B = {"kernel_quantizer": "ternary", "depthwise_quantizer": "binary",
 
 _RNN = ("SimpleRNN", "LSTM", "GRU", "Bidirectional")
 _MODE_PRIO = {"class": 0, "none": 1, "primary_only": 1, "both": 2, "hidden": 3,
-              "name": 4, "with_act": 5}
+              "name": 4, "with_act": 5, "name_empty": 3, "class_empty": 3,
+              "both_empty": 3, "empty_hides": 3}
+_EMPTY_MODES = ("name_empty", "class_empty", "both_empty", "empty_hides")
 
 
 def _dag_cases():
@@ -691,9 +703,16 @@ def lattice(quick=False):
           desc["seq_input"] = "kw"
         variant = ub is False or api == "sequential"
         for mode in ("none", "class", "primary_only", "name", "both", "hidden",
-                     "with_act"):
+                     "with_act") + _EMPTY_MODES:
           if quick and mode != "class" and variant:
             continue
+          if mode in _EMPTY_MODES and cls != "BatchNormalization":
+            # BatchNormalization: all four forms in both tiers (selected by
+            # the mere presence of the key); other kinds in quick only the two
+            # name forms, recurrent kinds (slow) only in thorough
+            if variant or (quick and (cls in _RNN or mode in (
+                "class_empty", "both_empty"))):
+              continue
           if mode == "primary_only" and (variant or cls not in _RNN):
             continue
           if quick and cls in _RNN and (
@@ -705,9 +724,11 @@ def lattice(quick=False):
           if qd is None:
             continue
           prio = _MODE_PRIO[mode] + (6 if variant else 0)
+          if cls == "BatchNormalization" and mode in _EMPTY_MODES:
+            prio = 1
           cases.append((prio, {
               "model": desc, "qdict": qd, "activation_bits": 5,
-              "transfer": mode in ("class", "both"),
+              "transfer": mode in ("class", "both", "name_empty", "both_empty"),
               "prefer_adaptive": False,
               "custom_objects": "aux" if mode == "name" else "none"}))
           if cls == "Activation" and mode in ("class", "name"):
@@ -739,6 +760,14 @@ def _lattice_dict(ld, mode, adaptive=False):
       return {ld["name"]: {key: qb}, ckey: qa}
     if mode == "hidden":
       return {ld["name"]: {"not_" + key: qb}, ckey: {key: qa}}
+    if mode == "name_empty":
+      return {ld["name"]: {}}
+    if mode == "class_empty":
+      return {ckey: {}}
+    if mode == "both_empty":
+      return {ld["name"]: {}, ckey: {}}
+    if mode == "empty_hides":
+      return {ld["name"]: {}, ckey: {key: qa}}
     return {ckey: qa}                         # with_act: plain string entry
   inner = ld["kw"]["layer"]["cls"] if cls == "Bidirectional" else None
   prim, sec = QD.roles_of(cls, inner)
@@ -748,6 +777,14 @@ def _lattice_dict(ld, mode, adaptive=False):
   full_b = {r: _B[r] for r in prim + no_act}
   if mode == "none":
     return dict(other)
+  if mode == "name_empty":
+    return {ld["name"]: {}}
+  if mode == "class_empty":
+    return {qk: {}}
+  if mode == "both_empty":
+    return {ld["name"]: {}, qk: {}}
+  if mode == "empty_hides":       # empty name entry in front of a full class entry
+    return {ld["name"]: {}, qk: full_a}
   if mode == "primary_only":      # e.g. kernel_quantizer and nothing else
     return {qk: {r: _A[r] for r in prim}}
   if mode == "class":
